@@ -200,3 +200,33 @@ Definition stream (ops : list top) : list N := flat_map op_data ops.
    under the real read loops and compares them with this one list. *)
 Inductive ctx := Direct | InSyncHandler | InAsyncHandler | InThreadHandler | LoopReply.
 Definition send_ops_in (x : ctx) (c : cfg) (s : send) : list top := send_ops c s.
+
+(* ---- the protocol object over a session: JsonRPCProtocol.__init__ / set_writer / sends ----
+   __init__: self.writer = None, self._include_headers = False.  set_writer(writer, h) assigns both
+   and does nothing else.  A send without a writer writes nothing, now or later (_send_data returns
+   after logging).  Writers are numbered in the order they are installed; the result lists every
+   transport operation together with the writer object it was made on. *)
+Record pstate := { p_writer : option (nat * wkind); p_headers : bool; p_next : nat }.
+Definition p_init : pstate := {| p_writer := None; p_headers := false; p_next := 0 |}.
+Definition p_cfg (st : pstate) : cfg :=
+  {| writer := match p_writer st with Some (_, w) => w | None => WNone end;
+     include_headers := p_headers st |}.
+Definition tag_ops (i : nat) (ops : list top) : list (nat * top) := map (pair i) ops.
+Definition p_step (st : pstate) (o : sop wkind) : pstate * list (nat * top) :=
+  match o with
+  | OSetWriter w h =>
+      ({| p_writer := Some (p_next st, w); p_headers := h; p_next := S (p_next st) |}, [])
+  | OSend s =>
+      (st, match p_writer st with
+           | Some (i, _) => tag_ops i (send_ops (p_cfg st) s)
+           | None => []          (* send_ops (p_cfg st) s = [] as well: no transport *)
+           end)
+  end.
+Fixpoint p_run (st : pstate) (ops : list (sop wkind)) : list (nat * top) :=
+  match ops with
+  | [] => []
+  | o :: r => let '(st', out) := p_step st o in out ++ p_run st' r
+  end.
+(* what writer object number i received *)
+Definition for_writer (i : nat) (out : list (nat * top)) : list top :=
+  map snd (filter (fun p => Nat.eqb (fst p) i) out).
